@@ -570,7 +570,9 @@ fn is_rx_op(n: &str) -> bool {
     n == "recv" || n == "try_recv" || n == "drop_rx"
 }
 fn ops_use(ops: &[Op], pred: fn(&str) -> bool, cname: &str) -> bool {
-    ops.iter().any(|o| pred(&o.name) && o.arg(0) == cname)
+    // (`pend_then w <op> <chan> …` uses the channel of its inner operation)
+    ops.iter()
+        .any(|o| (pred(&o.name) && o.arg(0) == cname) || (o.name == "pend_then" && pred(o.arg(1)) && o.arg(2) == cname))
 }
 
 /// The handle ownership rule, applied before a spawn of body `child` by the op at `pc`.
